@@ -434,33 +434,59 @@ def exec_structural_cli(ctx, what, order, walk_seed):
                 f.write('g')
             os.symlink(tgt, os.path.join(bad, 'sub', 'far'))
             extra = ['-x']
-        case = {'kind': 'structural', 'what': what, 'order': order,
-                'walk_seed': walk_seed}
-        ctx.case(sig=('structural', what, order), case=case, klass='structural')
-        ctx.count('structural_cli_runs')
-        paths = {'alone': [bad], 'first': [bad, good], 'last': [good, bad]}[order]
-        logging.getLogger().setLevel(logging.CRITICAL)
         try:
-            with walkperm.WalkPermuter(walk_seed, budget=2000):
+            case = {'kind': 'structural', 'what': what, 'order': order,
+                    'walk_seed': walk_seed}
+            ctx.case(sig=('structural', what, order), case=case, klass='structural')
+            ctx.count('structural_cli_runs')
+            paths = {'alone': [bad], 'first': [bad, good], 'last': [good, bad]}[order]
+            logging.getLogger().setLevel(logging.CRITICAL)
+            try:
+                with walkperm.WalkPermuter(walk_seed, budget=2000):
+                    try:
+                        rc = gcli.main(['gemato', 'verify', '-P', '-k'] + extra + paths)
+                    except SystemExit as exc:
+                        rc = exc.code
+            except walkperm.BudgetExceeded:
+                ctx.violation('loop-not-terminating', 'CLI walk exceeded 2000 steps', case)
+                return
+            except Exception as exc:
+                ctx.violation('structural-cli-raises:' + adapt.exc_key(exc),
+                              '`verify -k` let %r escape' % (exc,), case)
+                return
+            # ... and through the library with a handler that tolerates everything: the
+            # structural error itself must still be raised
+            from gemato.exceptions import (ManifestCrossDevice, ManifestIncompatibleEntry,
+                                           ManifestSymlinkLoop)
+            from gemato.recursiveloader import ManifestRecursiveLoader
+            want = {'loop': ManifestSymlinkLoop, 'incompatible': ManifestIncompatibleEntry,
+                    'xdev': ManifestCrossDevice}[what]
+            if what != 'xdev' or extra:
                 try:
-                    rc = gcli.main(['gemato', 'verify', '-P', '-k'] + extra + paths)
-                except SystemExit as exc:
-                    rc = exc.code
-        except walkperm.BudgetExceeded:
-            ctx.violation('loop-not-terminating', 'CLI walk exceeded 2000 steps', case)
-            return
-        except Exception as exc:
-            ctx.violation('structural-cli-raises:' + adapt.exc_key(exc),
-                          '`verify -k` let %r escape' % (exc,), case)
-            return
+                    with walkperm.WalkPermuter(walk_seed + 1, budget=2000):
+                        m = ManifestRecursiveLoader(os.path.join(bad, 'Manifest'),
+                                                    verify_openpgp=False,
+                                                    allow_xdev=(what != 'xdev'))
+                        r = m.assert_directory_verifies('', fail_handler=lambda e: True)
+                    ctx.violation('structural-problem-not-raised:' + what, 'with a handler '
+                                  'that tolerates every report the verification of a tree '
+                                  'with a %s returned %r instead of raising %s'
+                                  % (what, r, want.__name__), case)
+                    return
+                except want:
+                    ctx.count('structural_lib_raised')
+                except Exception as exc:
+                    ctx.violation('structural-lib-raises:' + adapt.exc_key(exc),
+                                  'expected %s, got %r' % (want.__name__, exc), case)
+                    return
+            if rc == 0:
+                ctx.violation('structural-problem-exit-0:' + what, '`gemato verify -k%s %s` '
+                              'exits 0 although the tree has a %s' % (
+                                  ' -x' if extra else '', ' '.join(
+                                      os.path.basename(p) for p in paths), what), case)
         finally:
             if what == 'xdev' and extra:
                 common.rmtree(tgt)
-        if rc == 0:
-            ctx.violation('structural-problem-exit-0:' + what, '`gemato verify -k%s %s` '
-                          'exits 0 although the tree has a %s' % (
-                              ' -x' if extra else '', ' '.join(
-                                  os.path.basename(p) for p in paths), what), case)
 
 
 def run_structural(u, ctx):
